@@ -368,6 +368,36 @@ def _family_cases(shard, nshards):
             yield {"family": f}
 
 
+def check_validity_rule(case: dict):
+    """the validity predicate itself, on the raw parameter space (also the configurations the enumeration must leave out): a path
+    tokenizer is valid iff its step tokenizers are pairwise distinct and are not `Distance` alone; a tokenizer is valid iff its parts are"""
+    from maze_dataset.tokenization import MazeTokenizerModular, PathTokenizers, PromptSequencers, StepSizes, StepTokenizers
+
+    kinds = {"coord": StepTokenizers.Coord, "cardinal": StepTokenizers.Cardinal, "relative": StepTokenizers.Relative, "distance": StepTokenizers.Distance}
+    steps = tuple(kinds[k]() for k in case["steps"])
+    want = len(set(case["steps"])) == len(case["steps"]) and list(case["steps"]) != ["distance"]
+    pt = call("C15:construct", lambda: PathTokenizers.StepSequence(step_size=StepSizes.Singles() if case["size"] == "singles" else StepSizes.Forks(), step_tokenizers=steps,
+                                                                   pre=case["pre"], intra=case["intra"], post=case["post"]))
+    got = bool(call("C15:is_valid", pt.is_valid))
+    require(got == want, "C15:validity-rule", f"StepSequence with step tokenizers {case['steps']}: is_valid()={got}, the rule (pairwise distinct, not Distance alone) says {want}")
+    tok = MazeTokenizerModular(prompt_sequencer=PromptSequencers.AOTP(path_tokenizer=pt))
+    got2 = bool(call("C15:is_valid", tok.is_valid))
+    require(got2 == want, "C15:validity-rule", f"tokenizer built on step tokenizers {case['steps']}: is_valid()={got2}, rule says {want}")
+    return {"nt": not want, "labels": ["valid" if want else "invalid"]}
+
+
+def _validity_cases(shard, nshards):
+    import itertools
+
+    k = 0
+    for n in (1, 2, 3, 4):
+        for steps in itertools.product(C06.STEP_KINDS, repeat=n):
+            k += 1
+            if k % nshards != shard:
+                continue
+            yield {"steps": list(steps), "size": ("singles", "forks")[k % 2], "pre": bool(k & 2), "intra": bool(k & 4), "post": bool(k & 8)}
+
+
 def check_legacy_neighbour(case: dict):
     """a tokenizer at Hamming distance <= 2 (over the 14 parameter axes) from a legacy image reports legacy equivalence iff it IS an image"""
     pa = C06.params_from_tuple(case["tuple"])
@@ -405,6 +435,7 @@ def subs(tier: str):
         Sub("restricted-enumeration", check_restriction, "hypothesis", strategy=_restriction, examples=10 if q else 400),
         Sub("identity", check_identity, "hypothesis", strategy=_identity, examples=100 if q else 6000),
         Sub("name-format", _check_full_name_format, "hypothesis", strategy=lambda: st.fixed_dictionaries({"tuple": _tuple()}), examples=20 if q else 200),
+        Sub("validity-rule", check_validity_rule, "exhaustive", cases=_validity_cases, exhaustive_flag=True),
         Sub("legacy-map", check_legacy_map, "exhaustive", cases=_legacy_cases, exhaustive_flag=True),
         Sub("legacy-neighbourhood", check_legacy_neighbour, "exhaustive", cases=(lambda sh, n: _legacy_neighbour_cases(sh, n, 2 if q else 3)), exhaustive_flag=True),
         Sub("cross-process", _replay_cross, "custom", run=_cross_process(150 if q else 600, ["0", "1", "4242"] if q else ["0", "1", "4242", "random", "31337"])),
